@@ -151,6 +151,7 @@ impl Graph {
 
 /// Dump of an automaton: per state the declared ranges, whether a default successor exists,
 /// finality; delta[s][j] = id of next(state s, reps[j]) + 1, or 0 if next panicked.
+#[derive(Clone)]
 pub struct AutDump {
     pub n: usize,
     pub init: usize,
